@@ -258,6 +258,23 @@ pub fn random_program<const V: u32>(d: &mut Driver<V>, p: &Params, pi: u64, nops
             } else if !bound[cand] {
                 bind::<V>(cand);
                 bound[cand] = true;
+                // a freshly bound mutator starts working at once: it allocates a few objects and
+                // links them to objects other mutators hold
+                let others: Vec<(usize, usize)> = live_muts
+                    .iter()
+                    .flat_map(|om| (0..p.nslots).map(move |i| (*om, i)))
+                    .filter(|(om, i)| Driver::<V>::root_get(*om, *i) != 0)
+                    .collect();
+                for j in 0..d.rng.range(1, 4) as usize {
+                    let size = 8 * d.rng.range(5, 40) as usize;
+                    let r = d.new_object(cand, j % p.nslots, 0, size, 2, 8, 0, KIND_PLAIN);
+                    if r != 0 && !others.is_empty() {
+                        let (om, oi) = *d.rng.pick(&others);
+                        let tgt = Driver::<V>::root_get(om, oi);
+                        let k = d.rng.below(2) as usize;
+                        d.write_field(cand, j % p.nslots, k, tgt);
+                    }
+                }
             }
         } else {
             // burst of short-lived allocations (fills nursery / TLABs)
